@@ -31,8 +31,8 @@ let rec wf_shape = function
   | _ -> None
 
 let sizes_of_part total = function
-  | Sx.L [Sx.A "rep"; k] -> let k = int_sx k in List.init (total / (max k 1) + 1) (fun _ -> nat_of_int k)
-  | Sx.L (Sx.A "sizes" :: l) -> List.map (fun x -> nat_of_int (int_sx x)) l
+  | Sx.L [Sx.A ("rep" | "rep-eof"); k] -> let k = int_sx k in List.init (total / (max k 1) + 1) (fun _ -> nat_of_int k)
+  | Sx.L (Sx.A ("sizes" | "sizes-eof") :: l) -> List.map (fun x -> nat_of_int (int_sx x)) l
   | x -> failwith ("framer: partition " ^ Sx.to_string x)
 
 let obs_entry = function
